@@ -277,6 +277,32 @@ def check(run: Run) -> None:
             run.report("C13/load-sequence", {"definition": t1 + " ; " + t2, "ops": [{"op": f"load(first, {k1}); load(second, {k2})", "observed": repr((sa, ca))[:300],
                        "expected": repr((sb, cb))[:300] + " (what loading `second` alone with these options gives)"}]})
 
+    # ---- 2b. fixed placements of a line break / block comment at the token boundaries of typedef declarators (anonymous structure
+    #          named by its first declarator, which is a pointer or an array) ----
+    for plain, names_ in (("typedef struct { uint8 a; uint16 b; } * ap_t, a_t; struct main { ap_t p; a_t s; uint8 t; };", ["ap_t", "a_t", "main"]),
+                          ("typedef struct { uint8 a; } aa_t [2], a_t; struct main { aa_t v; a_t s; };", ["aa_t", "a_t", "main"]),
+                          ("typedef union { uint16 w; uint8 b[2]; } * up_t, ** upp_t, u_t; struct main { up_t p; upp_t q; u_t u; };", ["up_t", "upp_t", "u_t", "main"])):
+        try:
+            ref = type_signature(structs.load(plain, compiled=False), names_)
+        except Exception as e:  # noqa: BLE001
+            failures += 1
+            run.report("C13/typedef-rejected", {"definition": plain, "ops": [{"op": "load", "observed": f"{type(e).__name__}: {e}", "expected": "the types"}]})
+            continue
+        for sep in ("\n", "\r\n", "\n\t ", " /* a\n b */ ", "\n// c\n", "\f", "\v"):
+            for variant in (plain.replace("* ", "*" + sep).replace("** ", "**" + sep), plain.replace(" [", sep + "["), plain.replace("} ", "}" + sep), plain.replace(", ", "," + sep)):
+                if variant == plain:
+                    continue
+                n_oracle += 1
+                try:
+                    got = type_signature(structs.load(variant, compiled=False), names_)
+                    prob = None if got == ref else {"observed": repr([got[n] for n in names_ if got[n] != ref[n]][0])[:300], "expected": repr([ref[n] for n in names_ if got[n] != ref[n]][0])[:300]}
+                except Exception as e:  # noqa: BLE001
+                    prob = {"observed": f"{type(e).__name__}: {e}", "expected": "the same types as the plain rendering"}
+                if prob:
+                    failures += 1
+                    run.report("C13/trivia-in-typedef-declarator", {"definition": plain, "ops": [{"op": "load with a line break / comment at a token boundary of the declarators", "variant": variant, **prob}]})
+                    break
+
     # ---- 3. aliases ----
     cs = cstruct()
     cs.load("typedef uint32 T1; typedef T1 T2; typedef struct _s { uint8 a; } s_t, s2_t; typedef struct { uint8 b; } anon_t, anon2_t;")
